@@ -1057,7 +1057,7 @@ func RunSliceExpr(ctx *Task, expr *ast.SliceExpr) (any, ast.DType, *errchain.PlE
 		return nil, ast.Invalid, NewRunError(ctx, "invalid obj type", expr.Obj.StartPos())
 	}
 
-	if step != nil {
+	if expr.Step != nil {
 		if stepT != ast.Int {
 			return nil, ast.Invalid, NewRunError(ctx, "step type must be integer", expr.Step.StartPos())
 		}
@@ -1069,7 +1069,7 @@ func RunSliceExpr(ctx *Task, expr *ast.SliceExpr) (any, ast.DType, *errchain.PlE
 		stepInt = 1
 	}
 
-	if start != nil {
+	if expr.Start != nil {
 		if startT != ast.Int {
 			return nil, ast.Invalid, NewRunError(ctx, "start type must be integer", expr.Start.StartPos())
 		}
@@ -1083,7 +1083,7 @@ func RunSliceExpr(ctx *Task, expr *ast.SliceExpr) (any, ast.DType, *errchain.PlE
 		startInt = length - 1
 	}
 
-	if end != nil {
+	if expr.End != nil {
 		if endT != ast.Int {
 			return nil, ast.Invalid, NewRunError(ctx, "end type must be integer", expr.End.StartPos())
 		}
